@@ -19,7 +19,7 @@ DOC_ASSUME = [
 
 def wraps_c03(case, ctx):
     """C03: every generated paragraph is placed in body/li/blockquote/layout-table cell"""
-    ws = ["none", "li", "bq", "td", "dtd"]
+    ws = ["none", "li", "bq", "td", "dtd", "tdbare", "libare"]
     if ctx["tier"] == "thorough":
         return [dict(case, p={"wrap": w}) for w in ws]
     w = ws[(zlib.crc32(json.dumps(case["nodes"], sort_keys=True).encode()) + ctx["seed"]) % len(ws)]
